@@ -14,11 +14,11 @@ def argsNat : List (String × Ty) → List Int → Prop
   | _, _ => False
 
 /-- an accepted method: parameters declared as the context says, body accepted by the
-checker from the empty fact list, well-formed (`wtBlock`: variable targets, and
-array-element targets with their `NoAlias` side condition) -/
+checker from the empty fact list, well-formed (`wtStmtA`: variable and array-element
+targets) -/
 structure MethodOk (Γ : Ctx) (m : Method) : Prop where
   params : ∀ p ∈ m.params, p.2 = Γ p.1
-  body : wtBlock Γ [] m.body
+  body : ∀ s ∈ m.body, wtStmtA Γ s
   accepted : ∃ fs', checkBlock [] m.body = some fs'
 
 theorem inType_of_refOk {t : Ty} {v : Int} (hn : inNatural t.base v) (hr : refOk t v = true) :
